@@ -1,6 +1,9 @@
 package main
 
 import (
+	"context"
+	"io"
+
 	"go.einride.tech/xsens"
 	"go.einride.tech/xsens/xsensemulator"
 )
@@ -20,6 +23,19 @@ func init() {
 			pid := xsens.MTData2Packet{byte(v >> 8), byte(v), 0}.Identifier()
 			if q := p.Identifier(); q != id {
 				pid = q
+			}
+			// and the data type the client reports for a received packet whose header carries v
+			{
+				port := &scriptedPort{r: &chunkReader{data: xsens.NewMessage(xsens.MessageIdentifierMTData2, []byte{byte(v >> 8), byte(v), 0}), final: io.EOF}}
+				cl := xsens.NewClient(port)
+				protect(func() {
+					if cl.Receive(context.Background()) == nil {
+						cl.ScanMeasurementData()
+						if dt := cl.DataType(); dt != pid.DataType {
+							pid.DataType = dt
+						}
+					}
+				})
 			}
 			c.emit("id16", tup(zs(int64(v)),
 				tup(zs(int64(id.DataType)), zs(int64(id.CoordinateSystem)), zs(int64(id.Precision))),
